@@ -98,6 +98,11 @@ struct World {
     worker_tl: Vec<(u32, Option<u64>)>,
 }
 
+/// does an entry (amount in fractions, 0 = the `All` policy) fit: `All` needs the whole, existing resource
+fn fits_entry(amount: u64, free: u64, total: u64) -> bool {
+    if amount == 0 { total > 0 && free == total } else { free >= amount }
+}
+
 fn round_scaled(x: f64) -> i64 {
     (x * FR as f64).round() as i64
 }
@@ -189,7 +194,7 @@ impl World {
             Op::AddRq { entries } => {
                 if self.decided
                     || entries.is_empty()
-                    || entries.iter().any(|(r, a)| *r as usize >= self.n_res || *a == 0)
+                    || entries.iter().any(|(r, _)| *r as usize >= self.n_res)
                 {
                     return false;
                 }
@@ -217,7 +222,7 @@ impl World {
                 }
                 // enabled only if the request fits the worker's free resources (an earlier round placed it)
                 let w = self.s.workers().into_iter().find(|w| w.id == *worker).unwrap();
-                let fits = self.s.request_entries(t.1).iter().all(|(r, a)| w.free[*r as usize] >= *a);
+                let fits = self.s.request_entries(t.1).iter().all(|(r, a)| fits_entry(*a, w.free[*r as usize], w.resources[*r as usize]));
                 if !fits {
                     return false;
                 }
@@ -253,7 +258,7 @@ impl World {
                 if self.decided
                     || variants.is_empty()
                     || variants.iter().any(|(es, _)| {
-                        es.is_empty() || es.iter().any(|(r, a)| *r as usize >= self.n_res || *a == 0)
+                        es.is_empty() || es.iter().any(|(r, _)| *r as usize >= self.n_res)
                     })
                 {
                     return false;
@@ -374,7 +379,7 @@ impl World {
                         for w in &ws {
                             let tl = self.worker_tl.iter().find(|x| x.0 == w.id).and_then(|x| x.1);
                             let min_time = self.s.request_variants(h.rq)[0].1;
-                            let capable = self.s.request_entries(h.rq).iter().all(|(r, a)| w.resources[*r as usize] >= *a)
+                            let capable = self.s.request_entries(h.rq).iter().all(|(r, a)| w.resources[*r as usize] >= (*a).max(1))
                                 && tl.map(|t| min_time <= t).unwrap_or(true);
                             if capable {
                                 let g = self.s.gap(h.rq, l.rq, w.id);
@@ -600,6 +605,16 @@ fn gen_trace(id: u64, rng: &mut Rng, tier: &str, mode: &str, out: &mut String) {
                 es.push((r as u32, rng.range(1, if r == 1 { 2 } else { 4 }) * FR));
             }
         }
+        // `All` policy (amount 0 = the whole resource of the worker) on cpus or on another resource
+        if !exact && rng.chance(1, 5) {
+            let r_all = rng.below(n_res as u64) as u32;
+            if let Some(e) = es.iter_mut().find(|e| e.0 == r_all) {
+                e.1 = 0;
+            } else {
+                es.push((r_all, 0));
+                es.sort();
+            }
+        }
         if classes.contains(&es) {
             continue;
         }
@@ -650,7 +665,7 @@ fn gen_trace(id: u64, rng: &mut Rng, tier: &str, mode: &str, out: &mut String) {
             // only if it fits (exec checks); the task is created first, then moved to the worker
             let prio = *rng.pick(&levels);
             let ws = w.s.workers().into_iter().find(|x| x.id == worker).unwrap();
-            let fits = classes[rq as usize].iter().all(|(r, a)| ws.free[*r as usize] >= *a);
+            let fits = classes[rq as usize].iter().all(|(r, a)| fits_entry(*a, ws.free[*r as usize], ws.resources[*r as usize]));
             if fits {
                 w.exec(&Op::AddT { task: t, rq, prio });
                 w.exec(&Op::Busy { task: t, worker, started: rng.chance(2, 3) });
@@ -706,6 +721,11 @@ fn gen_variants_trace(id: u64, rng: &mut Rng, out: &mut String) {
             if n_res > 1 && rng.chance(1, 3) {
                 es.push((1, rng.range(1, 2) * FR));
             }
+            if rng.chance(1, 6) {
+                // `All` policy on one of the variant's resources
+                let k = rng.below(es.len() as u64) as usize;
+                es[k].1 = 0;
+            }
             let t = if vi == 0 && rng.chance(2, 3) { *rng.pick(&TIMES[..2]) } else { *rng.pick(&TIMES) };
             variants.push((es, t));
         }
@@ -733,6 +753,18 @@ fn gen_variants_trace(id: u64, rng: &mut Rng, out: &mut String) {
         let nv = n_variants.get(rq as usize).copied().unwrap_or(1);
         let worker = w.workers[rng.below(w.workers.len() as u64) as usize];
         w.exec(&Op::Block { worker, rq, variant: rng.below(nv as u64) as u32 });
+    }
+    // partly busy workers: tasks assigned by an earlier round (first variant)
+    if rng.chance(1, 2) {
+        for _ in 0..rng.range(1, 2) {
+            let rq = rng.below(n_classes as u64) as u32;
+            let t = (1u64 << 32) | next_task;
+            next_task += 1;
+            let worker = w.workers[rng.below(w.workers.len() as u64) as usize];
+            w.exec(&Op::AddT { task: t, rq, prio: rng.range(0, 3) as i32 });
+            // not enabled if it does not fit; the task then simply stays in the queue
+            w.exec(&Op::Busy { task: t, worker, started: rng.chance(2, 3) });
+        }
     }
     w.exec(&Op::State);
     w.exec(&Op::VDecide);
